@@ -2177,6 +2177,8 @@ func opcodeCheckMultiSig(op *ParsedOpcode, t *thread) error {
 
 	// Remove the signatures since there is no way for a signature to sign
 	// itself, except for those using the fork id digest (see opcodeCheckSig).
+	// The bscript.OpCODESEPARATORs are removed further down, for the digest of
+	// a signature not using the fork id digest only.
 	for _, sigInfo := range signatures {
 		rawSig := sigInfo.signature
 		if t.hasFlag(scriptflag.EnableSighashForkID) && len(rawSig) > 0 &&
@@ -2184,7 +2186,6 @@ func opcodeCheckMultiSig(op *ParsedOpcode, t *thread) error {
 			continue
 		}
 		script = script.removeOpcodeByData(sigInfo.signature)
-		script = script.removeOpcode(bscript.OpCODESEPARATOR)
 	}
 
 	success := true
@@ -2272,7 +2273,12 @@ func opcodeCheckMultiSig(op *ParsedOpcode, t *thread) error {
 			continue
 		}
 
-		up, err := t.scriptParser.Unparse(script)
+		sigScript := script
+		if !t.hasFlag(scriptflag.EnableSighashForkID) || !shf.Has(sighash.ForkID) {
+			sigScript = script.removeOpcode(bscript.OpCODESEPARATOR)
+		}
+
+		up, err := t.scriptParser.Unparse(sigScript)
 		if err != nil {
 			t.dstack.PushBool(false)
 			return nil //nolint:nilerr // only need a false push in this case
